@@ -610,6 +610,33 @@ func genC01(r *Rng, tier string) []Case {
 			SArgs: []string{hx(user), cpsToken(user), cpsToken(lower), hx(pw), cpsToken(pw), rt}, Tag: "dcc2." + ut})
 		cs = append(cs, Case{Op: "c01.dcc2nt", MArgs: []string{hx(user), hx(lower), hx(ntH), rt},
 			SArgs: []string{hx(user), cpsToken(user), cpsToken(lower), hx(ntH), rt}, Tag: "dcc2nt." + ut})
+		if i%10 == 5 && rounds > 0 && rounds < 100000 {
+			// calls whose arguments coincide when written one after the other ("1024"+"0adm" / "10240"+"adm",
+			// "pw"+"user" split elsewhere): every call is answered for its own arguments, whatever was asked before
+			d := rd.Intn(10)
+			u1 := append([]byte{byte('0' + d)}, lower...)
+			for _, c := range []struct {
+				u []byte
+				r int
+			}{{u1, rounds}, {lower, rounds*10 + d}, {u1, rounds}} {
+				cs = append(cs, Case{Op: "c01.dcc2", MArgs: []string{hx(c.u), hx(c.u), hx(pw), strconv.Itoa(c.r)},
+					SArgs: []string{hx(c.u), cpsToken(c.u), cpsToken(c.u), hx(pw), cpsToken(pw), strconv.Itoa(c.r)}, Tag: "dcc2.adjacent-arguments"})
+				cs = append(cs, Case{Op: "c01.dcc2nt", MArgs: []string{hx(c.u), hx(c.u), hx(ntH), strconv.Itoa(c.r)},
+					SArgs: []string{hx(c.u), cpsToken(c.u), cpsToken(c.u), hx(ntH), strconv.Itoa(c.r)}, Tag: "dcc2nt.adjacent-arguments"})
+			}
+			if len(pw) > 1 && utf8.Valid(pw) && utf8.Valid(lower) {
+				k := 1
+				for k < len(pw) && !utf8.RuneStart(pw[k]) {
+					k++
+				}
+				p1, u2 := pw[:k], append(append([]byte{}, pw[k:]...), lower...)
+				u2 = []byte(strings.ToLower(string(u2)))
+				for _, c := range []struct{ p, u []byte }{{pw, lower}, {p1, u2}, {pw, lower}} {
+					cs = append(cs, Case{Op: "c01.dcc", MArgs: []string{hx(c.p), hx(c.u), hx(c.u)},
+						SArgs: []string{hx(c.p), cpsToken(c.p), hx(c.u), cpsToken(c.u), cpsToken(c.u)}, Tag: "dcc.adjacent-arguments"})
+				}
+			}
+		}
 	}
 
 	// ---- DES primitive ------------------------------------------------------------------------------
